@@ -298,6 +298,13 @@ class M:
                     v = v.reshape(-1)[0]
                 self.a[r, c] = v
                 return
+            _ia = lambda z: isinstance(z, (list, tuple, _np.ndarray)) and _np.asarray(z).dtype != bool and _np.asarray(z).ndim == 1
+            if _ia(r) and _ia(c) and len(r) == len(c):
+                # scipy / numpy semantics: two index arrays address element pairs (not the outer product); for a repeated pair the last value stays
+                vv = _np.asarray(v, dtype=object).reshape(-1) if isinstance(v, (list, tuple, _np.ndarray)) else [v] * len(r)
+                for i_ in range(len(r)):
+                    self.a[int(r[i_]), int(c[i_])] = vv[i_] if len(vv) > 1 or len(r) == 1 else vv[0]
+                return
             rows = _np.atleast_1d(_np.arange(self.a.shape[0])[r] if not r_s else _np.array([r]))
             cols = _np.atleast_1d(_np.arange(self.a.shape[1])[c] if not c_s else _np.array([c]))
             if isinstance(v, _np.ndarray):
